@@ -1316,10 +1316,12 @@ pub const SOCKET_OP_GETSOCKNAME: u32 = 5;
 /// Rings created while this is set enforce IORING_SETUP_SINGLE_ISSUER (see `SimRing::enforce_single`).
 pub static ENFORCE_SINGLE_ISSUER: AtomicBool = AtomicBool::new(false);
 pub static SQPOLL_EAGER: AtomicBool = AtomicBool::new(false);
-/// An `io_uring_enter` that carries IORING_ENTER_SQ_WAIT on a ring with a kernel thread (a10 passes
-/// it when the Ring is dropped, and then waits for the thread to have taken the queue): the
+/// The flush of the Ring's drop — `io_uring_enter(min_complete = u32::MAX, IORING_ENTER_SQ_WAIT)` on
+/// a ring with a kernel thread, after which a10 waits for the thread to have taken the queue: the
 /// simulated thread gets to run during that call and takes everything published. One of the
-/// behaviours an asynchronous thread may show; switched off by the scenario that lets it run later.
+/// behaviours an asynchronous thread may show (it spares the ordinary cases the one-second bound
+/// of that wait); switched off by the scenario that lets the thread run later. SQ_WAIT by itself
+/// does NOT make the thread take anything (Linux: it only waits while the queue is FULL).
 pub static SQWAIT_RUNS_THREAD: AtomicBool = AtomicBool::new(true);
 
 /// (the `life` component); closes made by dropping an `AsyncFd` stay synchronous.
@@ -2104,7 +2106,7 @@ fn sim_enter(fd: i32, to_submit: u32, min_complete: u32, flags: u32, arg: usize)
                 reported = Some(n);
             } else if ring.flags & SETUP_SQPOLL != 0 {
                 n = 0;
-                if flags & ENTER_SQ_WAIT != 0 && SQWAIT_RUNS_THREAD.load(Ordering::SeqCst) {
+                if flags & ENTER_SQ_WAIT != 0 && min_complete == u32::MAX && SQWAIT_RUNS_THREAD.load(Ordering::SeqCst) {
                     ring.sqpoll_asleep = false;
                     ring.set_sq_flags(0);
                     n = ring.sq_pending();
